@@ -674,10 +674,24 @@ func runC05Start(c *Ctx, conv map[*ssa.Function]bool) {
 // ---- lookahead-restore ---------------------------------------------------------------------
 
 // isCursorSnapshot: v is a copy of the tokenizer cursor (t.pos or t.pos.Clone()).
+// isPosIndexAddr: &t.pos.Index
+func isPosIndexAddr(a ssa.Value) bool {
+	fa, ok := a.(*ssa.FieldAddr)
+	if !ok || core.FieldName(fa.X.Type(), fa.Field) != "Index" {
+		return false
+	}
+	inner, ok := fa.X.(*ssa.FieldAddr)
+	return ok && fieldKey(inner.X, inner.Field) == "Tokenizer.pos"
+}
+
 func isCursorSnapshot(v ssa.Value) bool {
 	switch x := v.(type) {
 	case *ssa.UnOp:
 		if fa, ok := x.X.(*ssa.FieldAddr); ok && x.Op == token.MUL && fieldKey(fa.X, fa.Field) == "Tokenizer.pos" {
+			return true
+		}
+		// the byte offset alone (`save := t.pos.Index … t.pos.Index = save`)
+		if x.Op == token.MUL && isPosIndexAddr(x.X) {
 			return true
 		}
 	case *ssa.Call:
@@ -775,6 +789,9 @@ func runC05Lookahead(c *Ctx) {
 				for _, ref := range core.Referrers(snap) {
 					if st, ok := ref.(*ssa.Store); ok && st.Val == snap {
 						if fa, ok := st.Addr.(*ssa.FieldAddr); ok && fieldKey(fa.X, fa.Field) == "Tokenizer.pos" {
+							restores[st] = true
+						}
+						if isPosIndexAddr(st.Addr) {
 							restores[st] = true
 						}
 					}
